@@ -38,6 +38,8 @@ func runC06(c *Ctx) {
 	c06R2Resolve(c)
 	c06R2EmptyRef(c)
 	c06R2Untag(c)
+	c06R2ResolverMaps(c)
+	c05Wrappers(c, "C06.R2.refuse-before-mutate", true)
 }
 
 // ---------------------------------------------------------------- R1
@@ -299,7 +301,38 @@ func c06Wraps(fn *ssa.Function, v ssa.Value, sentinel string) bool {
 		return false
 	}
 	for _, r := range rs {
-		if !derivesFromAny(r, set, 0) {
+		if derivesFromAny(r, set, 0) {
+			continue
+		}
+		if c06HelperWraps(r, sentinel, 0) {
+			continue
+		}
+		return false
+	}
+	return true
+}
+
+// c06HelperWraps: v is the result of an in-module error constructor all of
+// whose results wrap the sentinel (e.g. `return alreadyExists(key)`).
+func c06HelperWraps(v ssa.Value, sentinel string, depth int) bool {
+	call, ok := strip(v).(*ssa.Call)
+	if !ok || depth > 2 {
+		return false
+	}
+	g := StaticCallee(call)
+	if g == nil || !inModule(g) || len(g.Blocks) == 0 {
+		return false
+	}
+	idx := ErrResultIndex(g.Signature)
+	if idx < 0 {
+		return false
+	}
+	atoms := RetAtoms(g, idx)
+	if len(atoms) == 0 {
+		return false
+	}
+	for _, a := range atoms {
+		if !c06Wraps(g, a.Val, sentinel) {
 			return false
 		}
 	}
@@ -411,7 +444,7 @@ func c06Fn(c *Ctx, R, pkg, name string) *ssa.Function {
 
 func c06R2Memory(c *Ctx) {
 	const R = "C06.R2.refuse-before-mutate"
-	c.Expect(R, 30) // 31 on the pinned tree; the fast pre-check in cas.Memory.Push is optional
+	c.Expect(R, 36) // 38 on the pinned tree; the fast pre-check in cas.Memory.Push is optional
 	fn := c06Fn(c, R, "internal/cas", "Memory.Push")
 	if fn == nil {
 		return
@@ -580,6 +613,7 @@ func c06R2File(c *Ctx) {
 		c.Check(R, tn+"|effects-under-name-lock", fn.Pos(), ok3, ifelse(ok3, "the per-name lock is held in W mode from the duplicate check through every content effect", bad3))
 	}
 	c05ExistsAfterSuccess(c, R, "(*~/content/file.Store).Add")
+	c05ExistsAfterSuccess(c, R, "(*~/content/file.Store).push")
 }
 
 // ---------------------------------------------------------------- R2: Tag
@@ -707,6 +741,85 @@ func c06R2Resolve(c *Ctx) {
 			}
 			c.Check(R, FnName(f)+"|resolver-verdict-returned", call.Pos(), r.OK && okTol, detail)
 		}
+	}
+}
+
+// ---------------------------------------------------------------- R2: resolver.Memory map semantics
+
+// c06R2ResolverMaps: Tag always (re)binds index[reference] = desc ("Resolve
+// returns the descriptor most recently tagged"); Untag of a known reference
+// always removes index[reference].
+func c06R2ResolverMaps(c *Ctx) {
+	const R = "C06.R2.refuse-before-mutate"
+	isIndex := func(v ssa.Value) bool {
+		u, ok := v.(*ssa.UnOp)
+		return ok && u.Op == token.MUL && c05IsFieldAddrOf(u.X, "~/internal/resolver.Memory", "index")
+	}
+	if fn := c06Fn(c, R, "internal/resolver", "Memory.Tag"); fn != nil {
+		var ref, desc *ssa.Parameter
+		for _, p := range fn.Params {
+			if b, ok := p.Type().Underlying().(*types.Basic); ok && b.Kind() == types.String {
+				ref = p
+			}
+			if c05IsOCIDescriptor(p.Type()) {
+				desc = p
+			}
+		}
+		var upd []ssa.Instruction
+		AllInstrs(fn, func(in ssa.Instruction) {
+			if mu, ok := in.(*ssa.MapUpdate); ok && isIndex(mu.Map) && ref != nil && strip(mu.Key) == ssa.Value(ref) && c05ParamOf(mu.Value) == desc && desc != nil {
+				upd = append(upd, mu)
+			}
+		})
+		ok := len(upd) > 0
+		for _, a := range c05MaybeNilAtoms(fn) {
+			if ok && !c05AtomMustPass(a, newCut().Instr(upd...)) {
+				ok = false
+			}
+		}
+		c.Check(R, FnName(fn)+"|tag-rebinds-reference", fn.Pos(), ok,
+			ifelse(ok, "every successful Tag stores index[reference] = desc", "Tag can succeed without binding the reference to the new descriptor: Resolve keeps returning an older descriptor (or nothing)"))
+	}
+	if fn := c06Fn(c, R, "internal/resolver", "Memory.Untag"); fn != nil && len(fn.Params) >= 2 {
+		ref := fn.Params[len(fn.Params)-1]
+		var present []Edge
+		AllInstrs(fn, func(in ssa.Instruction) {
+			lk, ok := in.(*ssa.Lookup)
+			if !ok || !lk.CommaOk || !isIndex(lk.X) || strip(lk.Index) != ssa.Value(ref) {
+				return
+			}
+			for _, r := range *lk.Referrers() {
+				if e, ok := r.(*ssa.Extract); ok && e.Index == 1 {
+					te, _ := BoolTests(fn, Aliases(e))
+					present = append(present, te...)
+				}
+			}
+		})
+		var dels []ssa.Instruction
+		for _, call := range CallsTo(fn, "builtin:delete") {
+			a := call.Common().Args
+			if isIndex(a[0]) && strip(a[1]) == ssa.Value(ref) {
+				dels = append(dels, call.(ssa.Instruction))
+			}
+		}
+		ok := len(dels) > 0
+		if len(present) > 0 {
+			for _, e := range present {
+				for _, r := range Returns(fn) {
+					if reach(e.To, 0, r, newCut().Instr(dels...)) {
+						ok = false
+					}
+				}
+			}
+		} else {
+			for _, r := range Returns(fn) {
+				if ReachableFromEntry(r) && !MustPass(r, newCut().Instr(dels...)) {
+					ok = false
+				}
+			}
+		}
+		c.Check(R, FnName(fn)+"|untag-removes-reference", fn.Pos(), ok,
+			ifelse(ok, "Untag of a known reference always deletes index[reference]", "Untag can return without removing index[reference]: Resolve still succeeds for an untagged reference"))
 	}
 }
 
@@ -899,5 +1012,10 @@ var c06Mutants = []Mutant{
 	{Name: "oci-validate-reference-accepts-empty", File: "content/oci/oci.go", Old: "func validateReference(ref string) error {\n\tif ref == \"\" {\n\t\treturn errdef.ErrMissingReference\n\t}\n", New: "func validateReference(ref string) error {\n", Expect: "C06.R2.refuse-before-mutate|(*~/content/oci.Store).Tag|empty-reference-rejected-first"},
 	{Name: "oci-untag-digest-allowed", File: "content/oci/oci.go", Old: "\tif reference == desc.Digest.String() {\n\t\treturn fmt.Errorf(\"reference %q is a digest and not a tag: %w\", reference, errdef.ErrInvalidReference)\n\t}\n", New: "\t_ = desc\n", Expect: "C06.R2.refuse-before-mutate|(*~/content/oci.Store).Untag|"},
 	{Name: "oci-untag-unresolved-reference", File: "content/oci/oci.go", Old: "\tif err != nil {\n\t\treturn fmt.Errorf(\"resolving reference %q: %w\", reference, err)\n\t}", New: "\tif err != nil && !errors.Is(err, errdef.ErrNotFound) {\n\t\treturn fmt.Errorf(\"resolving reference %q: %w\", reference, err)\n\t}", Expect: "C06.R2.refuse-before-mutate|(*~/content/oci.Store).Untag|untag-only-resolved-tags"},
+	{Name: "resolver-tag-keeps-first-binding", File: "internal/resolver/memory.go", Old: "\tm.index[reference] = desc\n", New: "\tif _, dup := m.index[reference]; !dup {\n\t\tm.index[reference] = desc\n\t}\n", Expect: "C06.R2.refuse-before-mutate|(*~/internal/resolver.Memory).Tag|tag-rebinds-reference"},
+	{Name: "resolver-untag-keeps-shared-reference", File: "internal/resolver/memory.go", Old: "\tdelete(m.index, reference)\n\ttagSet := m.tags[desc.Digest]\n\ttagSet.Delete(reference)\n\tif len(tagSet) == 0 {\n", New: "\ttagSet := m.tags[desc.Digest]\n\ttagSet.Delete(reference)\n\tif len(tagSet) == 0 {\n\t\tdelete(m.index, reference)\n", Expect: "C06.R2.refuse-before-mutate|(*~/internal/resolver.Memory).Untag|untag-removes-reference"},
+	{Name: "memory-store-duplicate-push-succeeds", File: "content/memory/memory.go", Old: "\tif err := s.storage.Push(ctx, expected, reader); err != nil {", New: "\tif err := s.storage.Push(ctx, expected, reader); err != nil && reader == nil {", Expect: "C06.R2.refuse-before-mutate|(*~/content/memory.Store).Push|inner-push-refusal-returned"},
+	{Name: "file-push-marks-name-before-write", File: "content/file/file.go", Old: "\tif needUnpack := expected.Annotations[AnnotationUnpack]; needUnpack == \"true\" && !s.SkipUnpack {", New: "\tstatus.exists = true\n\tif needUnpack := expected.Annotations[AnnotationUnpack]; needUnpack == \"true\" && !s.SkipUnpack {", Expect: "C06.R2.refuse-before-mutate|(*~/content/file.Store).push|exists-set-only-after-success"},
+	{Name: "oci-store-tags-manifest-before-push", File: "content/oci/oci.go", Old: "\tif err := s.storage.Push(ctx, expected, reader); err != nil {\n\t\treturn err\n\t}\n\tif err := s.graph.Index(ctx, s.storage, expected); err != nil {\n\t\treturn err\n\t}\n\tif descriptor.IsManifest(expected) {\n\t\t// tag by digest\n\t\treturn s.tag(ctx, expected, expected.Digest.String())\n\t}\n\treturn nil", New: "\tif descriptor.IsManifest(expected) {\n\t\t// tag by digest\n\t\tif err := s.tag(ctx, expected, expected.Digest.String()); err != nil {\n\t\t\treturn err\n\t\t}\n\t}\n\tif err := s.storage.Push(ctx, expected, reader); err != nil {\n\t\treturn err\n\t}\n\treturn s.graph.Index(ctx, s.storage, expected)", Expect: "C06.R2.refuse-before-mutate|(*~/content/oci.Store).Push|bookkeeping-only-after-successful-inner-push"},
 	{Name: "oci-resolve-swallows-resolver-error", File: "content/oci/oci.go", Old: "\t\t\treturn resolveBlob(os.DirFS(s.root), reference)\n\t\t}\n\t\treturn ocispec.Descriptor{}, err", New: "\t\t\treturn resolveBlob(os.DirFS(s.root), reference)\n\t\t}\n\t\treturn ocispec.Descriptor{}, nil", Expect: "C06.R2.refuse-before-mutate|(*~/content/oci.Store).Resolve|resolver-verdict-returned"},
 }
